@@ -141,7 +141,10 @@ def fix_constraint_cholesky(ZTx, s_chol, d, P, P_inorder, U, tolerance):
             cholesky_funcs.
     """
     q = P * (s_chol <= tolerance)
-    alpha = np.min(d[q] / (d[q] - s_chol[q]))
+    # d[q] - s_chol[q] is zero when a variable with d = 0 enters the passive set and its solution is exactly zero
+    # (a degenerate optimum); the step length for it is then zero, not 0 / 0.
+    step = d[q] - s_chol[q]
+    alpha = np.min(np.where(step > 0.0, d[q] / np.where(step > 0.0, step, 1.0), 0.0))
 
     # set d as close to s as possible while maintaining non-negativity
     d = d + alpha * (s_chol - d)
